@@ -34,47 +34,77 @@ func canonGate(p *ana.Prog, fn *ssa.Function, want string) *ana.Gate {
 	})
 }
 
-// clampOf recognises  v = phi[x (|x| <= M), Duration(float64(Sgn(x)) * M)]
-// guarded by  float64(x.Abs()) > M. Returns x and M.
+// clampOf recognises a value bounded by M through the clamp idiom: a merge every input of which is
+// either the clamp expression Duration(float64(Sgn(x)) * M) (bounded whatever the path) or x itself
+// arriving on an edge that is only taken when float64(x.Abs()) > M is false - however the merge is
+// laid out (two-way, through extra jump blocks of an inlined helper with early returns, nested).
+// Returns x and M.
 func clampOf(v ssa.Value) (x, m ssa.Value, ok bool) {
 	ph, isPhi := v.(*ssa.Phi)
-	if !isPhi || len(ph.Edges) != 2 {
+	if !isPhi {
 		return nil, nil, false
 	}
-	for i := 0; i < 2; i++ {
-		raw, cl := ph.Edges[i], ph.Edges[1-i]
-		rawBlk, clBlk := ph.Block().Preds[i], ph.Block().Preds[1-i]
-		// clamped value: convert(Mul(convert(Sgn(raw)), M))
-		mul, isMul := ana.StripConv(cl).(*ssa.BinOp)
-		if !isMul || mul.Op != token.MUL {
-			continue
+	// x and M from a clamp expression among the (nested) inputs
+	var raw, mm ssa.Value
+	seen := map[*ssa.Phi]bool{}
+	var find func(q *ssa.Phi)
+	find = func(q *ssa.Phi) {
+		if seen[q] {
+			return
 		}
-		var sg *ssa.Call
-		var mm ssa.Value
-		for _, pr := range [][2]ssa.Value{{mul.X, mul.Y}, {mul.Y, mul.X}} {
-			if c, _ := ana.CallOf(ana.StripConv(pr[0])); c != nil && ana.CalleeName(c.Common()) == ana.Q("base/timemath.Sgn") && c.Common().Args[0] == raw {
-				sg, mm = c, pr[1]
+		seen[q] = true
+		for _, e := range q.Edges {
+			if a, b, ok := clampExprOf(e); ok && raw == nil {
+				raw, mm = a, b
+			}
+			if n, ok := e.(*ssa.Phi); ok {
+				find(n)
 			}
 		}
-		if sg == nil {
-			continue
-		}
-		// guard in rawBlk: if float64(Abs(raw)) > M goto clBlk
-		iff, isIf := rawBlk.Instrs[len(rawBlk.Instrs)-1].(*ssa.If)
-		if !isIf || len(clBlk.Preds) != 1 {
-			continue
-		}
-		c, succ, _, isCmp := ana.IfCmp(iff, token.GTR)
-		if !isCmp || rawBlk.Succs[succ] != clBlk || c.Y != mm {
-			continue
-		}
-		ab, _ := ana.CallOf(ana.StripConv(c.X))
-		if ab == nil || ana.CalleeName(ab.Common()) != "(time.Duration).Abs" || ab.Common().Args[0] != raw {
-			continue
-		}
-		return raw, mm, true
 	}
-	return nil, nil, false
+	find(ph)
+	if raw == nil {
+		return nil, nil, false
+	}
+	notExceedingEdge := func(pred, to *ssa.BasicBlock) bool {
+		// pred ends with the test and `to` is its not-exceeding successor, or pred lies behind that successor
+		if iff, isIf := pred.Instrs[len(pred.Instrs)-1].(*ssa.If); isIf {
+			if c, succ, _, isCmp := ana.IfCmp(iff, token.GTR); isCmp && c.Y == mm && pred.Succs[1-succ] == to && pred.Succs[succ] != to {
+				if ab, _ := ana.CallOf(ana.StripConv(c.X)); ab != nil && ana.CalleeName(ab.Common()) == "(time.Duration).Abs" && ab.Common().Args[0] == raw {
+					return true
+				}
+			}
+		}
+		return withinMax(raw, mm, pred)
+	}
+	checked := map[*ssa.Phi]bool{}
+	var check func(q *ssa.Phi) bool
+	check = func(q *ssa.Phi) bool {
+		if checked[q] {
+			return true
+		}
+		checked[q] = true
+		for i, e := range q.Edges {
+			if a, b, ok := clampExprOf(e); ok && a == raw && b == mm {
+				continue
+			}
+			if e == raw {
+				if !notExceedingEdge(q.Block().Preds[i], q.Block()) {
+					return false
+				}
+				continue
+			}
+			if n, ok := e.(*ssa.Phi); ok && n != q && check(n) {
+				continue
+			}
+			return false
+		}
+		return true
+	}
+	if !check(ph) {
+		return nil, nil, false
+	}
+	return raw, mm, true
 }
 
 // maxCorrOf: M = cfg.<impact> * float64(clk.Drift(cfg.SyncInterval)); returns the impact field name.
@@ -366,11 +396,9 @@ func withinMax(raw, m ssa.Value, b *ssa.BasicBlock) bool {
 		if ab == nil || ana.CalleeName(ab.Common()) != "(time.Duration).Abs" || ab.Common().Args[0] != raw {
 			continue
 		}
-		// the not-exceeding edge leads to (or is) b without the other edge rejoining first
-		if d == b || d.Succs[1-succ] == b || d.Succs[1-succ].Dominates(b) {
-			if d == b {
-				return true // b itself ends with the test; the phi edge from b is its false edge (checked by the caller through the phi's pred)
-			}
+		// the not-exceeding successor is entered only from the test and leads to (or is) b
+		ne := d.Succs[1-succ]
+		if len(ne.Preds) == 1 && d.Succs[succ] != ne && (ne == b || ne.Dominates(b)) {
 			return true
 		}
 	}
